@@ -271,3 +271,12 @@ def doc(x):
     from contracts.c_formatter import spec_doc
 
     return spec_doc(x)
+
+
+# ---------------------------------------------------------------- definitions: accumulate loops
+def loop_stmt(section):
+    """The single statement inside the (innermost) dof loop of a definition section."""
+    s = section.statements[0]
+    while isinstance(s, L.ForRange):
+        s = s.body.statements[0]
+    return s.expr
